@@ -138,6 +138,19 @@ pub fn all_entry_points(lang_code: &str, text: &str, th: f64) -> Result<usize, S
     let n = stream.len();
     let _ = no_panic("find_numbers(stream)", || find_numbers(stream.iter(), lg, th))?;
     let _ = no_panic("replace_numbers_in_stream", || replace_numbers_in_stream(stream, lg, th))?;
+    // ASR-style tokens whose lowercase form is a normalised one (punctuation stripped, possibly empty)
+    let norm_stream: Vec<Tk> = text
+        .split_whitespace()
+        .enumerate()
+        .map(|(i, w)| {
+            let mut t = Tk::new(i, w);
+            t.lower = w.to_lowercase().chars().filter(|c| c.is_alphanumeric() || *c == '-' || *c == '\'').collect();
+            t
+        })
+        .collect();
+    let _ = no_panic("find_numbers(stream with normalised lowercase forms)", || find_numbers(norm_stream.iter(), lg, th).len())?;
+    let _ = no_panic("find_numbers_iter(stream with normalised lowercase forms)", || find_numbers_iter(norm_stream.iter(), lg, th).count())?;
+    let _ = no_panic("replace_numbers_in_stream(normalised lowercase forms)", || replace_numbers_in_stream(norm_stream, lg, th).len())?;
     let _ = no_panic("get_interpreter_for", || get_interpreter_for(text).is_some())?;
     Ok(n)
 }
